@@ -87,6 +87,10 @@ struct vf_api {
     void (*fortran_gssv)(int *iopt, int *n, int_t *nnz, int *nrhs, void *values, int_t *rowind, int_t *colptr,
                          void *b, int *ldb, int64_t *factors, int_t *info);
     void (*Copy_CompCol)(SuperMatrix *, SuperMatrix *);
+    void (*CompRow_to_CompCol)(int, int, int_t, void *, int_t *, int_t *, void **, int_t **, int_t **);
+    void (*Copy_Dense)(int, int, void *, int, void *, int);
+    void (*FillRHS)(trans_t, int, void *, int, SuperMatrix *, SuperMatrix *);
+    void (*GenXtrue)(int, int, void *, int);
 };
 extern vf_api vf_apis[4];
 
